@@ -1325,6 +1325,18 @@ class Ev:
             return bool(v.d)
         if isinstance(v, Obj):
             return True
+        if isinstance(v, CondV) and is_sym(v.lhs) and getattr(v.lhs, "func", None) is not None and getattr(v.lhs.func, "__name__", "") == "GRIDMAX" \
+                and isinstance(v.lhs.args[0], sp.Abs) and is_sym(v.rhs) and sp.sympify(v.rhs).is_number and 0 < sp.sympify(v.rhs) < sp.Rational(1, 1000) and v.op in (">", ">=", "<", "<="):
+            # max |x| over the grid against a tiny tolerance, x a quantity that does not vanish identically (the assumption numpy.allclose(x, 0) is read with):
+            # "<=" / "<" is false - and stays false when x holds NaN (every comparison with NaN is false).  ">" / ">=" is true for finite data and FALSE for data with a NaN:
+            # whatever branches on it sends NaN data the other way (a component that is NaN somewhere on the grid is treated as if it vanished)
+            if v.op in ("<", "<="):
+                return False
+            e = RaisedV("InputAssumption", self.here(n, mod))
+            e.expected = "a test for 'vanishes everywhere' that is false for data containing NaN, as numpy.allclose(x, 0) is (max|x| <= tol, not: not (max|x| > tol))"
+            e.detail = (f"the branch on [{v.text}] goes one way for finite data and the other way for data with a NaN on the grid (a comparison with NaN is false): a component that is NaN "
+                        f"somewhere - outside the range where the stiffness is positive definite, say - is handled like one that vanishes everywhere and is silently left out")
+            raise e
         if isinstance(v, (CondV, TolCond)) and getattr(self, "branch_oracle", None) is not None:
             return self.branch_oracle(v)
         if is_sym(v) and isinstance(v, sp.logic.boolalg.Boolean) and getattr(self, "branch_oracle", None) is not None:
@@ -3656,6 +3668,10 @@ lib_pinv.kw = {"rcond", "rtol", "hermitian"}
 def lib_allclose_unknown(ev, a, k, n, mod):
     x = a[0]
     if is_sym(x) and x.is_number and is_sym(a[1]) and a[1].is_number:
+        rtol = k.get("rtol", a[2] if len(a) > 2 else sp.Rational(1, 10 ** 5))
+        atol = k.get("atol", a[3] if len(a) > 3 else sp.Rational(1, 10 ** 8))
+        if is_sym(rtol) and rtol.is_number and is_sym(atol) and atol.is_number:
+            return bool(sp.Abs(x - a[1]) <= atol + rtol * sp.Abs(a[1]))          # numpy's own test, on exact numbers
         return bool(x == a[1])
     # a symbolic array is assumed not to vanish identically (a vanishing one is merely skipped)
     return False
@@ -5783,6 +5799,15 @@ def _arr_reduce(fn, symbolic=None):
         keep = k.get("keepdims", False)
         if not _float_dtype(k.get("dtype")):
             raise ev.err(f"reduction with dtype {k.get('dtype')!r} is not modelled", n, mod)
+        if axis is not None and isinstance(axis, Tup) and isinstance(x, ArrV) and x.batch and not x.batch_last and fn in (max, min) \
+                and sorted(_const_int(i_) % (x.batch + len(x.shape)) for i_ in axis.items) == list(range(x.batch)) and not keep:
+            # the extreme over the whole grid of every cell: one opaque number per cell (NaN when any grid point is NaN)
+            tag = sp.Function("GRIDMAX" if fn is max else "GRIDMIN")
+            out = ArrV(0, x.shape)
+            for key in itertools.product(*[range(d) for d in x.shape]):
+                c = sp.sympify(x.get(key))
+                out.cells[key] = c if c.is_number else tag(c)
+            return out
         if axis is not None:
             if symbolic is None and not all(sp.sympify(x.get(key)).is_number for key in itertools.product(*[range(d) for d in x.shape])):
                 raise ev.err("axis-wise reduction of a non-constant small array", n, mod)
